@@ -996,6 +996,9 @@ def extract_fields(obj: model.CanContainImportsDocumentable) -> None:
             if tag == 'type':
                 attrobj.parsed_type = field.body()
             else:
+                if attrobj.parsed_docstring is not None:
+                    obj.report(f'Variable "{arg}" was already documented',
+                               'docstring', field.lineno)
                 attrobj.parsed_docstring = field.body()
                 attrobj.kind = field_name_to_kind[tag]
 
